@@ -1015,8 +1015,10 @@ def rewrite_for_loops(toks, arrays=()):
             v = ps[1].s
             new = (T("{ let mut vf_i: usize = 0; while vf_i < (%s).len() " % xs, like) + marks
                    + T("{ ", like) + lead + T("let %s = (%s)[vf_i]; " % (v, xs), like) + body + T(" vf_i += 1; } }", like))
-        elif len(ps) == 1 and len(es) > 5 and etxt[-4] == "(" and es[-1].s == ")" and etxt[-5] == "chunks_exact_mut":
-            # R19b: for b in Y.chunks_exact_mut(K)
+        elif (len(ps) == 1 and len(es) > 5 and es[-1].s == ")" and "zip" not in etxt and etxt.count("chunks_exact_mut") == 1
+              and etxt[etxt.index("chunks_exact_mut") - 1] == "." and etxt[etxt.index("chunks_exact_mut") + 1] == "("
+              and match_close(es, etxt.index("chunks_exact_mut") + 1) == len(es) - 1):
+            # R19b: for b in Y.chunks_exact_mut(K)   (K any expression: the call's parenthesis closes the header)
             ys, kk, v = txt(es[:-6]), es[-3].s if len(es[-3:-1]) == 2 else None, ps[0].s
             kk = txt(es[etxt.index("chunks_exact_mut") + 2:-1])
             ys = txt(es[:etxt.index("chunks_exact_mut") - 1])
@@ -1044,6 +1046,49 @@ def rewrite_for_loops(toks, arrays=()):
                    + T("let %s = (%s)[vf_i]; let %s = &mut (%s)[vf_i * (%s)..(vf_i + 1) * (%s)]; "
                        % (va, xs, vb, ys, kk, kk), like)
                    + body + T(" vf_i += 1; } }", like))
+        elif ("zip" in etxt and "chunks_exact" in etxt[:etxt.index("zip")] and [p.s for p in ps][0::2] == ["(", ",", ")"]
+              and len(ps) == 5 and etxt[-1] == ")" and etxt[etxt.index("zip") - 2] == ")"):
+            # R19e: for (a, b) in X.chunks_exact(K).zip(W)   (W: a `&mut [T]` place; a: &[T] of length K, b: &mut T)
+            zi, ci = etxt.index("zip"), etxt.index("chunks_exact")
+            xs, kk, ws = txt(es[:ci - 1]), txt(es[ci + 2:zi - 2]), txt(es[zi + 2:-1])
+            va, vb = ps[1].s, ps[3].s
+            new = (T("{ let vf_n: usize = { let vf_a = (%s).len() / (%s); let vf_b = (%s).len(); "
+                     "if vf_b < vf_a { vf_b } else { vf_a } }; let mut vf_i: usize = 0; while vf_i < vf_n "
+                     % (xs, kk, ws), like)
+                   + marks + T("{ ", like) + lead
+                   + T("let %s = &(%s)[vf_i * (%s)..(vf_i + 1) * (%s)]; let %s = &mut (%s)[vf_i]; "
+                       % (va, xs, kk, kk, vb, ws), like)
+                   + body + T(" vf_i += 1; } }", like))
+        elif ("zip" in etxt and "chunks_mut" in etxt[etxt.index("zip"):] and [p.s for p in ps][0::2] == ["(", ",", ")"]
+              and len(ps) == 5 and etxt[etxt.index("zip") - 5:etxt.index("zip")] == [".", "iter", "(", ")", "."]):
+            # R19g: for (a, b) in X.iter().zip(Y.chunks_mut(K))   (a: &T; b: &mut [T], the last piece may be short)
+            zi = etxt.index("zip")
+            inner = es[zi + 2:-1]
+            itxt = [e.s for e in inner]
+            ci = itxt.index("chunks_mut")
+            xs, ys, kk = txt(es[:zi - 5]), txt(inner[:ci - 1]), txt(inner[ci + 2:-1])
+            va, vb = ps[1].s, ps[3].s
+            new = (T("{ let vf_len: usize = (%s).len(); { let vf_dbg: bool = (%s) != 0; assert(vf_dbg); } "
+                     "let vf_n: usize = { let vf_a = (%s).len(); "
+                     "let vf_b = vf_len / (%s) + (if vf_len %% (%s) != 0 { 1 } else { 0 }); "
+                     "if vf_b < vf_a { vf_b } else { vf_a } }; let mut vf_i: usize = 0; while vf_i < vf_n "
+                     % (ys, kk, xs, kk, kk), like)
+                   + marks + T("{ ", like) + lead
+                   + T("let %s = &(%s)[vf_i]; let vf_end: usize = if vf_len - vf_i * (%s) < (%s) { vf_len } else "
+                       "{ (vf_i + 1) * (%s) }; let %s = &mut (%s)[vf_i * (%s)..vf_end]; "
+                       % (va, xs, kk, kk, kk, vb, ys, kk), like)
+                   + body + T(" vf_i += 1; } }", like))
+        elif len(ps) == 1 and "zip" not in etxt and "chunks_mut" in etxt and etxt[-1] == ")" \
+                and etxt[etxt.index("chunks_mut") - 1] == ".":
+            # R19f: for b in Y.chunks_mut(K)   (b: &mut [T], consecutive pieces of K items, the last may be short)
+            ci = etxt.index("chunks_mut")
+            ys, kk, v = txt(es[:ci - 1]), txt(es[ci + 2:-1]), ps[0].s
+            new = (T("{ let vf_tot: usize = (%s).len(); { let vf_dbg: bool = (%s) != 0; assert(vf_dbg); } "
+                     "let mut vf_o: usize = 0; while vf_o < vf_tot " % (ys, kk), like)
+                   + marks + T("{ ", like) + lead
+                   + T("let vf_e: usize = if vf_tot - vf_o < (%s) { vf_tot } else { vf_o + (%s) }; "
+                       "let %s = &mut (%s)[vf_o..vf_e]; " % (kk, kk, v, ys), like)
+                   + body + T(" vf_o = vf_e; } }", like))
         else:
             raise ExtractError("for-loop over `%s` is outside rules R11/R19 (line %d)" % (txt(es), t.line))
         toks[i:c + 1] = new
@@ -1055,6 +1100,7 @@ GLOBAL_SUBSTS = [
     # R4
     (pat_of("u32::from_le_bytes("), "vf_u32_from_le_bytes("),
     (pat_of(".to_le_bytes()"), ".vf_to_le_bytes()"),
+    (pat_of(".trailing_zeros()"), ".vf_trailing_zeros()"),
     # R9
     (pat_of("core::mem::take("), "vf_take_mut_slice("),
     # R15
